@@ -101,7 +101,7 @@ func symxC11B() {
 	deliver()
 	rt.Assert(len(b2.state.SessionMetadatas().All()) == 1 && len(b2.state.Subscriptions().All()) == nf, "C11.peer_sees_the_session")
 	symxTick()
-	cause := rt.Int("cause", 0, 5)
+	cause := rt.Int("cause", 0, 6)
 	var cNew *symxConn
 	switch cause {
 	case 0:
@@ -115,6 +115,11 @@ func symxC11B() {
 	case 4:
 		f.mgr.DisconnectClients(b.ctx)
 		c.feedEOF()
+	case 6: // the connection breaks while the broker answers a SUBSCRIBE
+		c.mu.Lock()
+		c.failWrite = true
+		c.mu.Unlock()
+		c.feed(symxSubscribeBytes(7, "z", 0))
 	case 5: // displaced by a newer session of the same client; noticed at the next keep-alive exchange
 		cNew = symxNewConn()
 		rt.Assert(f.connect(cNew, symxConnectBytes("cid", 30, "", nil, nil, 0, false)) == nil, "C11.second_connect_accepted")
